@@ -3,11 +3,19 @@ import Log4rsModel.Base.Outcome
 /-
 C03 — model of the filter chain interpreter `Appender::append` (src/lib.rs 300–311), of
 `ThresholdFilter::filter` (src/filter/threshold.rs 31–39), of the fan-out loop
-`ConfiguredLogger::log` (src/lib.rs 276–291) and of the error loop in `Log::log` (438–449),
-followed by the executable specification read off the English statement.
+`ConfiguredLogger::log` (src/lib.rs 276–291), of the error loop in `Log::log` (438–449), of which
+error handler a `SharedLogger` holds (`Logger::new`, `Logger::new_with_err_handler`,
+`Handle::set_config`, src/lib.rs) and of how a chain comes to be attached
+(`AppenderBuilder::{filter,filters}`, `RawConfig::appenders_lossy`), followed by the executable
+specification read off the English statement.
 
-The observation is the complete sequence of calls one `Log::log` makes: which filter of which
-appender is consulted, which appender's `append` is called, which error reaches the handler.
+Generic part: the record type `ρ` is arbitrary and a filter is any function `ρ → Response`; the
+result of an appender's `append` may differ from call to call. The check instantiates `ρ` with the
+record level and the filters with scripted answers and the threshold filter.
+
+The observation is the complete sequence of calls one `Log::log` makes: which filter (named by the
+position at which it was DECLARED — its label) of which appender is consulted, which appender's
+`append` is called, which error reaches which handler.
 -/
 namespace Log4rs.Routing
 
@@ -18,7 +26,149 @@ inductive Response where
   | accept | neutral | reject
   deriving Repr, DecidableEq
 
-/-- the filters the check knows: a scripted one with a fixed answer, and the real threshold filter -/
+/-- a filter as an appender holds it: the label it got when it was declared (position in the
+declaration) and its answer function -/
+abbrev LFilter (ρ : Type) := Nat × (ρ → Response)
+
+/-- filters get their labels where they are declared: first declared = 0 -/
+def declare {ρ : Type} (fs : List (ρ → Response)) : List (LFilter ρ) :=
+  fs.zipIdx.map fun p => (p.2, p.1)
+
+/-- the loop at the head of `Appender::append`, on the appender's vector in vector order: returns
+(labels of the filters consulted, in consultation order; whether `self.appender.append(record)` is
+reached). Accept breaks, Neutral continues, Reject returns. -/
+def runChainL {ρ : Type} (r : ρ) : List (LFilter ρ) → List Nat × Bool
+  | [] => ([], true)
+  | (l, f) :: rest =>
+    match f r with
+    | .accept => ([l], true)
+    | .reject => ([l], false)
+    | .neutral => let t := runChainL r rest; (l :: t.1, t.2)
+
+/-- what one call of `Append::append` does: returns `Ok`, returns `Err`, or unwinds -/
+inductive CallResult where
+  | ok | err | panic
+  deriving Repr, DecidableEq
+
+/-- a configured appender: its filter vector and what its `append` does on its k-th call
+(k = 0, 1, …) during the `Log::log` under consideration -/
+structure AppenderG (ρ : Type) where
+  chain : List (LFilter ρ)
+  result : Nat → CallResult
+
+/-- one call made during `Log::log` -/
+inductive Event where
+  | filter (app label : Nat)    -- `appenders[app].filters[..].filter(record)`, the filter declared at `label`
+  | append (app : Nat)          -- `appenders[app].appender.append(record)`
+  | handler (app : Nat)         -- the handler given to `new_with_err_handler` gets the error of appender `app`
+  | stderr (app : Nat)          -- the default handler of `SharedLogger::new` writes it to stderr
+  deriving Repr, DecidableEq
+
+/-- `Appender::append` of appender number `i`, its `k`-th reached call: the calls it makes and how
+it ends (a rejected record returns `Ok` without reaching the appender) -/
+def appendOneG {ρ : Type} (i : Nat) (a : AppenderG ρ) (r : ρ) (k : Nat) : List Event × CallResult :=
+  let c := runChainL r a.chain
+  (c.1.map (Event.filter i) ++ (if c.2 then [Event.append i] else []),
+   if c.2 then a.result k else .ok)
+
+/-- result of the `for &idx in &self.appenders` loop -/
+inductive LoopResult where
+  | done (events : List Event) (errors : List Nat)   -- calls made; appenders whose `Err` was pushed, in order
+  | panicked (events : List Event)                   -- unwound after these calls; the pushed errors are lost
+  deriving Repr, DecidableEq
+
+/-- the loop of `ConfiguredLogger::log`. `reached` lists the appenders whose `append` was already
+called during this loop (it determines the call number of the next one). `appenders[idx]` out of
+range panics; a panicking `append` unwinds through the loop. -/
+def attachLoopG {ρ : Type} (table : List (AppenderG ρ)) (r : ρ) : List Nat → List Nat → LoopResult
+  | [], _ => .done [] []
+  | idx :: rest, reached =>
+    match table[idx]? with
+    | none => .panicked []
+    | some a =>
+      let one := appendOneG idx a r (reached.count idx)
+      if one.2 = .panic then .panicked one.1
+      else
+        let reached' := if (runChainL r a.chain).2 then idx :: reached else reached
+        match attachLoopG table r rest reached' with
+        | .done ev errs => .done (one.1 ++ ev) ((if one.2 = .err then [idx] else []) ++ errs)
+        | .panicked ev => .panicked (one.1 ++ ev)
+
+/-- result of one `Log::log` -/
+inductive LogResult where
+  | returned (calls : List Event)
+  | panicked (calls : List Event)
+  deriving Repr, DecidableEq
+
+def LogResult.map (f : Event → Event) : LogResult → LogResult
+  | .returned tr => .returned (tr.map f)
+  | .panicked tr => .panicked (tr.map f)
+
+/-- `ConfiguredLogger::log` followed by the error loop of `Log::log`, for the handler given to
+`new_with_err_handler`: every call, in order. `nodeLevel` is the level of the logger node `find`
+returned, `attached` its appender indices, `lvlOf` reads `record.level()`. -/
+def fanoutG {ρ : Type} (table : List (AppenderG ρ)) (nodeLevel : Nat) (attached : List Nat)
+    (lvlOf : ρ → Nat) (r : ρ) : LogResult :=
+  if admits nodeLevel (lvlOf r) then
+    match attachLoopG table r attached [] with
+    | .done ev errs => .returned (ev ++ errs.map Event.handler)
+    | .panicked ev => .panicked ev
+  else .returned []
+
+/-! ### which handler a logger holds -/
+
+inductive HandlerId where
+  | configured     -- the closure given to `Logger::new_with_err_handler` / `init_config_with_err_handler`
+  | default        -- the closure `SharedLogger::new` installs: `writeln!(io::stderr(), "log4rs: {}", e)`
+  deriving Repr, DecidableEq
+
+/-- what `Log::log` loads for a record: the appender table, the node `find` returns for the
+record's target (its level and attachment list), the error handler -/
+structure Shared (ρ : Type) where
+  table : List (AppenderG ρ)
+  nodeLevel : Nat
+  attached : List Nat
+  handler : HandlerId
+
+/-- an error handed to the default handler shows up on stderr, not in the configured closure -/
+def viaHandler : HandlerId → Event → Event
+  | .default, .handler a => .stderr a
+  | _, e => e
+
+/-- `Log::log` on a snapshot -/
+def Shared.log {ρ : Type} (s : Shared ρ) (lvlOf : ρ → Nat) (r : ρ) : LogResult :=
+  (fanoutG s.table s.nodeLevel s.attached lvlOf r).map (viaHandler s.handler)
+
+/-- `Logger::new_with_err_handler(config, h)` (`h = configured`) and `Logger::new(config)` (`default`) -/
+def Shared.create {ρ : Type} (h : HandlerId) (table : List (AppenderG ρ)) (nodeLevel : Nat)
+    (attached : List Nat) : Shared ρ :=
+  { table, nodeLevel, attached, handler := h }
+
+/-- THE CODE AS IT IS (`true`, since /repo 4b40d58): `Handle::set_config` builds the new
+`SharedLogger` with the error handler of the snapshot it replaces.
+`false` = the historical behaviour: `SharedLogger::new(config)`, whose handler is the default stderr
+closure — the handler the logger was created with was dropped by the first reconfiguration
+(finding `C03/err-handler-lost-on-set-config`, fixed). -/
+def handlerKeptAcrossSetConfig : Bool := true
+
+/-- `Handle::set_config(config)`: everything is replaced by what the new configuration says -/
+def Shared.setConfigWith {ρ : Type} (kept : Bool) (s : Shared ρ) (table : List (AppenderG ρ))
+    (nodeLevel : Nat) (attached : List Nat) : Shared ρ :=
+  { table, nodeLevel, attached, handler := if kept then s.handler else .default }
+
+def Shared.setConfig {ρ : Type} (s : Shared ρ) (table : List (AppenderG ρ)) (nodeLevel : Nat)
+    (attached : List Nat) : Shared ρ :=
+  s.setConfigWith handlerKeptAcrossSetConfig table nodeLevel attached
+
+/-- a sequence of reconfigurations -/
+def Shared.reconfigureWith {ρ : Type} (kept : Bool) (s : Shared ρ) :
+    List (List (AppenderG ρ) × Nat × List Nat) → Shared ρ
+  | [] => s
+  | c :: cs => (s.setConfigWith kept c.1 c.2.1 c.2.2).reconfigureWith kept cs
+
+/-! ### the filters and appenders the check instantiates the model with (`ρ` = record level) -/
+
+/-- a scripted filter with a fixed answer, and the real threshold filter -/
 inductive Filter where
   | fixed (r : Response)
   | threshold (level : Nat)       -- LevelFilter 0..5
@@ -33,129 +183,143 @@ def Filter.respond (f : Filter) (lvl : Nat) : Response :=
   | .fixed r => r
   | .threshold thr => thresholdFilter thr lvl
 
-/-- the loop at the head of `Appender::append`: returns (number of filters consulted, whether
-`self.appender.append(record)` is reached). Accept breaks, Neutral continues, Reject returns. -/
-def runChain (lvl : Nat) : List Filter → Nat × Bool
-  | [] => (0, true)
-  | f :: rest =>
-    match f.respond lvl with
-    | .accept => (1, true)
-    | .reject => (1, false)
-    | .neutral => let r := runChain lvl rest; (r.1 + 1, r.2)
+/-- a scripted appender: its chain as declared, the results of its first calls, and the result of
+every later call -/
+structure AppenderM where
+  chain : List Filter
+  results : List CallResult := []
+  rest : CallResult := .ok
+  deriving Repr, DecidableEq
+
+def AppenderM.resultAt (a : AppenderM) (k : Nat) : CallResult := a.results.getD k a.rest
+
+def AppenderM.toG (a : AppenderM) : AppenderG Nat :=
+  { chain := declare (a.chain.map Filter.respond), result := a.resultAt }
+
+/-- the chain interpreter on a declared chain of the instantiated filters -/
+def runChain (lvl : Nat) (chain : List Filter) : List Nat × Bool :=
+  runChainL lvl (declare (chain.map Filter.respond))
+
+def fanout (table : List AppenderM) (nodeLevel : Nat) (attached : List Nat) (lvl : Nat) : LogResult :=
+  fanoutG (table.map AppenderM.toG) nodeLevel attached id lvl
 
 /-! ### how a chain comes to be attached to an appender -/
 
-/-- programmatic path: `AppenderBuilder::filter` pushes each filter onto `filters`
-(`AppenderBuilder::filters` extends by the same pushes) and `build` moves the vector into the
-`Appender` -/
-def builderChain (declared : List Filter) : List Filter :=
-  declared.foldl (fun acc f => acc ++ [f]) []
+/-- the calls on an `AppenderBuilder` -/
+inductive BuilderCall (ρ : Type) where
+  | filter (f : ρ → Response)              -- `.filter(f)`   : `self.filters.push(f)`
+  | filters (fs : List (ρ → Response))     -- `.filters(it)` : `self.filters.extend(it)`
+
+def BuilderCall.step {ρ : Type} (acc : List (ρ → Response)) : BuilderCall ρ → List (ρ → Response)
+  | .filter f => acc ++ [f]
+  | .filters fs => fs.foldl (fun a f => a ++ [f]) acc
+
+/-- programmatic path: the vector after the calls; `build` moves it into the `Appender` -/
+def builderVec {ρ : Type} (calls : List (BuilderCall ρ)) : List (ρ → Response) :=
+  calls.foldl BuilderCall.step []
+
+/-- the filters the calls declare, in declaration order -/
+def BuilderCall.declared {ρ : Type} : BuilderCall ρ → List (ρ → Response)
+  | .filter f => [f]
+  | .filters fs => fs
 
 /-- an entry of an appender's `filters:` list in a configuration document -/
-inductive FilterEntry where
-  | ok (f : Filter)     -- has a `kind` with a registered deserializer that accepts the entry
-  | bad                 -- no `kind`, unknown kind, or refused by its deserializer
-  deriving Repr, DecidableEq
+inductive FilterEntry (ρ : Type) where
+  | ok (f : ρ → Response)     -- has a `kind` with a registered deserializer that accepts the entry
+  | bad                       -- no `kind`, unknown kind, or refused by its deserializer
 
-/-- configuration-file path (`config/raw.rs`): `split_appender` hands the entries of `filters:` over
-in document order; `RawConfig::appenders_lossy` walks them in that order, `builder.filter(f)` for
-each one that deserializes, one reported error for each one that does not. Returns the chain and
-the number of errors. -/
-def configStep (acc : List Filter × Nat) : FilterEntry → List Filter × Nat
-  | .ok f => (acc.1 ++ [f], acc.2)
+/-- one step of the loop `for filter in filters` in `RawConfig::appenders_lossy`: an entry at document
+position `pos` either deserializes (`builder = builder.filter(f)`) or is reported -/
+def configStep {ρ : Type} (acc : List (LFilter ρ) × Nat) (e : Nat × FilterEntry ρ) : List (LFilter ρ) × Nat :=
+  match e.2 with
+  | .ok f => (acc.1 ++ [(e.1, f)], acc.2)
   | .bad => (acc.1, acc.2 + 1)
 
-def configChain (doc : List FilterEntry) : List Filter × Nat :=
-  doc.foldl configStep ([], 0)
+/-- configuration-file path (`config/raw.rs`): `split_appender` hands the entries of `filters:` over
+in document order; `appenders_lossy` walks them in that order. Filters are labelled by their
+position in the document. Returns the chain and the number of reported errors. -/
+def configChain {ρ : Type} (doc : List (FilterEntry ρ)) : List (LFilter ρ) × Nat :=
+  (doc.zipIdx.map fun p => (p.2, p.1)).foldl configStep ([], 0)
 
-/-- a configured appender: its filter chain and whether its `append` returns `Err` -/
-structure AppenderM where
-  chain : List Filter
-  fails : Bool
-  deriving Repr, DecidableEq
+/-- the value under `filters:` of an appender entry -/
+inductive FiltersValue (ρ : Type) where
+  | absent                               -- no `filters` key: no filters
+  | seq (doc : List (FilterEntry ρ))     -- a sequence
+  | notSeq                               -- something else (`filters: 3`): `split_appender` fails
 
-/-- one call made during `Log::log` -/
-inductive Event where
-  | filter (app idx : Nat)      -- `appenders[app].filters[idx].filter(record)`
-  | append (app : Nat)          -- `appenders[app].appender.append(record)`
-  | handler (app : Nat)         -- `(err_handler)(&e)` with the error returned by appender `app`
-  deriving Repr, DecidableEq
-
-/-- `Appender::append` of appender number `i`: the calls it makes and whether it returns `Err` -/
-def appendOne (i : Nat) (a : AppenderM) (lvl : Nat) : List Event × Bool :=
-  let r := runChain lvl a.chain
-  ((List.range r.1).map (Event.filter i) ++ (if r.2 then [Event.append i] else []),
-   r.2 && a.fails)
-
-/-- the `for &idx in &self.appenders` loop of `ConfiguredLogger::log`: calls made, and the errors
-collected (as the numbers of the appenders that returned them). `appenders[idx]` out of range
-panics. -/
-def attachLoop (table : List AppenderM) (lvl : Nat) : List Nat → Outcome Unit (List Event × List Nat)
-  | [] => .ok ([], [])
-  | idx :: rest =>
-    match table[idx]? with
-    | none => .panic "appenders[idx]: index out of bounds"
-    | some a =>
-      let r := appendOne idx a lvl
-      match attachLoop table lvl rest with
-      | .ok t => .ok (r.1 ++ t.1, (if r.2 then [idx] else []) ++ t.2)
-      | .err e => .err e
-      | .panic w => .panic w
-
-/-- `ConfiguredLogger::log` followed by the error loop of `Log::log`: every call, in order.
-`nodeLevel` is the level of the logger node `find` returned, `attached` its appender indices. -/
-def fanout (table : List AppenderM) (nodeLevel : Nat) (attached : List Nat) (lvl : Nat) :
-    Outcome Unit (List Event) :=
-  if admits nodeLevel lvl then
-    match attachLoop table lvl attached with
-    | .ok t => .ok (t.1 ++ t.2.map Event.handler)
-    | .err e => .err e
-    | .panic w => .panic w
-  else .ok []
+/-- the appender an entry of the document yields: `none` = the whole appender is reported and
+skipped (`split_appender` error). The second component is the number of reported errors. -/
+def configAppender {ρ : Type} (v : FiltersValue ρ) (result : Nat → CallResult) :
+    Option (AppenderG ρ) × Nat :=
+  match v with
+  | .absent => (some { chain := [], result }, 0)
+  | .seq doc => (some { chain := (configChain doc).1, result }, (configChain doc).2)
+  | .notSeq => (none, 1)
 
 /-! ## Part 2 — the executable specification -/
 
-/-- the first filter that does not answer Neutral decides -/
-def firstDecisive (lvl : Nat) (chain : List Filter) : Option Response :=
-  (chain.map (·.respond lvl)).find? (· ≠ .neutral)
+/-- the first filter, in declaration order, that does not answer Neutral decides -/
+def firstDecisive {ρ : Type} (r : ρ) (fs : List (ρ → Response)) : Option Response :=
+  (fs.map (· r)).find? (· ≠ .neutral)
 
 /-- "the first Accept delivers and the first Reject drops …, and all-Neutral delivers" -/
-def specDelivered (lvl : Nat) (chain : List Filter) : Bool :=
-  match firstDecisive lvl chain with
+def specDelivered {ρ : Type} (r : ρ) (fs : List (ρ → Response)) : Bool :=
+  match firstDecisive r fs with
   | none => true
-  | some r => r = .accept
+  | some a => a = .accept
 
 /-- "… without consulting later filters": the filters up to and including the first decisive one -/
-def specConsulted (lvl : Nat) (chain : List Filter) : Nat :=
-  match (chain.map (·.respond lvl)).findIdx? (· ≠ .neutral) with
+def specConsulted {ρ : Type} (r : ρ) (fs : List (ρ → Response)) : Nat :=
+  match (fs.map (· r)).findIdx? (· ≠ .neutral) with
   | some i => i + 1
-  | none => chain.length
+  | none => fs.length
 
-/-- what one attachment of appender `i` causes, from its own chain alone -/
-def specAppenderEvents (i : Nat) (a : AppenderM) (lvl : Nat) : List Event :=
-  (List.range (specConsulted lvl a.chain)).map (Event.filter i)
-  ++ (if specDelivered lvl a.chain then [Event.append i] else [])
+/-- the answer functions of a chain, in vector order -/
+def fns {ρ : Type} (ch : List (LFilter ρ)) : List (ρ → Response) := ch.map (·.2)
 
-/-- an attachment whose appender is reached and returns an error -/
-def specErrs (table : List AppenderM) (lvl : Nat) (i : Nat) : Bool :=
+/-- what one attachment of appender `i` causes, from its own chain alone: the labels of the first
+`specConsulted` filters, then `append` if the chain delivers -/
+def specAppenderEvents {ρ : Type} (i : Nat) (a : AppenderG ρ) (r : ρ) : List Event :=
+  ((a.chain.take (specConsulted r (fns a.chain))).map fun f => Event.filter i f.1)
+  ++ (if specDelivered r (fns a.chain) then [Event.append i] else [])
+
+def specAttachEvents {ρ : Type} (table : List (AppenderG ρ)) (r : ρ) (i : Nat) : List Event :=
   match table[i]? with
-  | some a => specDelivered lvl a.chain && a.fails
+  | some a => specAppenderEvents i a r
+  | none => []
+
+/-- is the `k`-th reached call of appender `i` an error: its chain delivers and that call returns `Err` -/
+def errAt {ρ : Type} (table : List (AppenderG ρ)) (r : ρ) (i k : Nat) : Bool :=
+  match table[i]? with
+  | some a => specDelivered r (fns a.chain) && a.result k = .err
   | none => false
 
-def specTrace (table : List AppenderM) (nodeLevel : Nat) (attached : List Nat) (lvl : Nat) :
-    List Event :=
-  if admits nodeLevel lvl then
-    attached.flatMap (fun i => match table[i]? with
-      | some a => specAppenderEvents i a lvl
-      | none => [])
-    ++ (attached.filter (specErrs table lvl)).map Event.handler
+/-- does the attachment at position `p.2` of the attachment list `attached` (appender `p.1`) return
+an error; its call number is the number of earlier attachments of the same appender -/
+def specErrs {ρ : Type} (table : List (AppenderG ρ)) (r : ρ) (attached : List Nat) (p : Nat × Nat) : Bool :=
+  errAt table r p.1 ((attached.take p.2).count p.1)
+
+/-- the attachments that return an error, in attachment order -/
+def specErrList {ρ : Type} (table : List (AppenderG ρ)) (r : ρ) (attached : List Nat) : List Nat :=
+  (attached.zipIdx.filter (specErrs table r attached)).map (·.1)
+
+/-- the trace the statement prescribes when no reached `append` panics -/
+def specTraceG {ρ : Type} (table : List (AppenderG ρ)) (nodeLevel : Nat) (attached : List Nat)
+    (lvlOf : ρ → Nat) (r : ρ) : List Event :=
+  if admits nodeLevel (lvlOf r) then
+    attached.flatMap (specAttachEvents table r)
+    ++ (specErrList table r attached).map Event.handler
   else []
+
+def specTrace (table : List AppenderM) (nodeLevel : Nat) (attached : List Nat) (lvl : Nat) : List Event :=
+  specTraceG (table.map AppenderM.toG) nodeLevel attached id lvl
 
 /-- the events of a trace that concern appender `i` -/
 def Event.app : Event → Nat
   | .filter a _ => a
   | .append a => a
   | .handler a => a
+  | .stderr a => a
 
 def project (i : Nat) (tr : List Event) : List Event := tr.filter (·.app = i)
 
